@@ -92,7 +92,8 @@ pub fn tie_case(text: &str, strict: bool) -> Option<(String, String)> {
         return None; // /include is outside this model (C16)
     }
     if toks.iter().any(|t| t.0 == 0 && matches!(&text[t.1..t.2], "A2ML" | "IF_DATA")) {
-        return None; // A2ML / IF_DATA are `special` types: a parameter of the generic parser model (C18)
+        // A2ML / IF_DATA: the `special` parsers of the model (Model/A2ml.lean, Model/IfData.lean) need the f32 table too
+        return tie_case_special(text, strict);
     }
     let mut floats: Vec<String> = vec![];
     let mut seen = std::collections::HashSet::new();
